@@ -56,7 +56,7 @@ fn is_out_of_resources<T>(r: &DdsResult<T>) -> bool {
 // @assume invariant I: the live publisher's counter byte c0 is below the current counter c
 // @enc DcpsDomainParticipant::create_user_defined_publisher
 #[kani::proof]
-#[kani::unwind(15)]
+#[kani::unwind(3)]
 #[kani::stub(critical_section::acquire, super::support_cs::cs_acquire)]
 #[kani::stub(critical_section::release, super::support_cs::cs_release)]
 fn c35_publisher_handle() {
@@ -93,7 +93,7 @@ fn c35_publisher_handle() {
 // @assume invariant I: the live subscriber's counter byte c0 is below the current counter c
 // @enc DcpsDomainParticipant::create_user_defined_subscriber
 #[kani::proof]
-#[kani::unwind(15)]
+#[kani::unwind(3)]
 #[kani::stub(critical_section::acquire, super::support_cs::cs_acquire)]
 #[kani::stub(critical_section::release, super::support_cs::cs_release)]
 fn c35_subscriber_handle() {
@@ -135,7 +135,7 @@ fn c35_subscriber_handle() {
 // @assume stub: alloc::fmt::format returns an empty String (error message texts are in no claim)
 // @enc DcpsDomainParticipant::create_topic
 #[kani::proof]
-#[kani::unwind(15)]
+#[kani::unwind(3)]
 #[kani::stub(critical_section::acquire, super::support_cs::cs_acquire)]
 #[kani::stub(critical_section::release, super::support_cs::cs_release)]
 #[kani::stub(<crate::xtypes::type_object::TypeInformation as core::convert::From<crate::xtypes::dynamic_type::DynamicType<'static>>>::from, super::support_participant::type_information_stub)]
@@ -175,7 +175,7 @@ fn c35_topic_handle() {
 // @assume stub: TypeInformation::from(DynamicType) returns a fixed value; stub: alloc::fmt::format returns an empty String
 // @enc DcpsDomainParticipant::create_content_filtered_topic
 #[kani::proof]
-#[kani::unwind(15)]
+#[kani::unwind(3)]
 #[kani::stub(critical_section::acquire, super::support_cs::cs_acquire)]
 #[kani::stub(critical_section::release, super::support_cs::cs_release)]
 #[kani::stub(<crate::xtypes::type_object::TypeInformation as core::convert::From<crate::xtypes::dynamic_type::DynamicType<'static>>>::from, super::support_participant::type_information_stub)]
@@ -207,6 +207,12 @@ fn c35_filtered_topic_handle() {
     core::mem::forget(p);
 }
 
+// Deletions (delete_user_defined_publisher/subscriber/topic) would have to be shown to preserve the invariant the
+// creations rely on (every live entity's key < counter). One real delete_user_defined_publisher on a participant with
+// ONE publisher holding a directly installed writer did not finish in 900 s (load 14) even with global unwind 3,
+// per-loop unwindsets and the removed entity's drop glue cut out: both outcomes of `data_writer_list.is_empty()` are
+// explored and the accepted branch drags the recursive drop glue of TypeIdentifier boxes. NOT decided: see DESIGN.md
+// (seeded change C35-1 is therefore missed by this check).
 // create_data_writer / create_data_reader (writer_counter / reader_counter) are NOT decided: one such call on a
 // participant (topic + publisher + writer, symbolic counter) did not fit — Symex 24 s, 1618 VCCs after
 // simplification, then "Solver ran out of memory during propositional reduction" at 26 GB / 450 s — even with the
